@@ -195,7 +195,10 @@ def loop_case(r):
 def oracle_loop(case, steps):
     """C10 'running tests are left to finish unless the cause is a signal', on what the units of the
     real run loop received: OtherCancel for setup-script / test failure / report error, the shutdown
-    request only for signals, nothing without an announcement"""
+    request only for signals, nothing without an announcement -- except that a unit reporting a
+    failed attempt while the run is being cancelled is sent OtherCancel again (it must not sit out
+    its retry delay)"""
+    cancelling = False
     for i, (ev, st) in enumerate(zip(case["events"], steps)):
         want = []
         for e in st["emitted"]:
@@ -206,9 +209,15 @@ def oracle_loop(case, steps):
                     want = [f"shutdown_once:{ev[1]}"] if ev[0] == "sig" else ["?"]
             if e["k"] == "RunBeginKill":
                 want = ["shutdown_twice"]
-        for u in st["received"]:
-            if u != want:
-                return f"step {i} ({ev}): a running unit received {u}, the announcement made calls for {want}"
+        for key, got in st["received"]:
+            w = list(want)
+            if ev[0] == "afwr" and cancelling and key == ev[1]:
+                w = ["other_cancel"] + w
+            if got != w:
+                return (f"step {i} ({ev}): unit {key} received {got}, the announcements made so far call "
+                        f"for {w}")
+        if want:
+            cancelling = True
     return None
 
 
@@ -220,6 +229,12 @@ def corr_run_loop(chk, binary, r, tier):
     cases = [dict(op="loop", kind="loop", ntests=4, nscripts=1, initial=4, max_fail=2, cfg=cfg,
                   events=[["ss", 0], ["sf", 0, [0, 0, 0]], ["st", 0], ["st", 1], ["st", 2], ["fin", 0, f11],
                           ["fin", 1, f11], ["st", 3], ["sig", "term"], ["rc"], ["sig", "int"]])]
+    # F10's schedule: test 0 fails (fail-fast) while test 1's first attempt is running; that attempt
+    # then fails with retries left: unit 1 must be sent the cancel request again
+    cfg10 = dict(ntests=2, sel=[0, 1], unsel=[], total={0: 1, 1: 3}, nscripts=0)
+    cases.append(dict(op="loop", kind="loop", ntests=2, nscripts=0, initial=2, max_fail=1, cfg=cfg10,
+                      events=[["st", 0], ["st", 1], ["fin", 0, f11], ["afwr", 1, [2, 0, 0, 0, 1, 3]],
+                              ["rs", 1, 2, 3]]))
     for sg in dc.SIGS:
         cases.append(dict(cases[0], max_fail=None, events=[["ss", 0], ["sf", 0, [0, 0, 0]], ["st", 0], ["st", 1],
                                                             ["sig", sg], ["st", 2], ["sig", "hup"]]))
@@ -228,7 +243,8 @@ def corr_run_loop(chk, binary, r, tier):
     impl = vlib.run_impl(binary, "dispatcher", cases, shards=8)
     model = dc.coq_eval("c10l", [dc.coq_seq_expr(c) for c in cases])
     bro = dc.coq_eval("c10b", [
-        f"map (fun x => enc_broadcast (broadcast_of (r_resp (step_resp x)))) "
+        f"map (fun x => enc_broadcast (broadcast_of (r_resp (step_resp x))) ++ "
+        f"[match r_unit (step_resp x) with Some t => t + 1 | None => 0 end]) "
         f"(trace (Live (init {c['initial']} {dc.coq_mf(c['max_fail'])} true)) {dc.coq_events(c['events'])})"
         for c in cases])
     for c, i, m, b in zip(cases, impl, model, bro):
@@ -243,13 +259,15 @@ def corr_run_loop(chk, binary, r, tier):
             return
         for k, (st, mo, bc) in enumerate(zip(i["steps"], m, b)):
             chk.count("run_loop_steps")
-            for u in st["received"]:
+            for key, u in st["received"]:
                 for q in u:
                     chk.count(f"unit_received={q.split(':')[0]}")
-            want = [] if bc == [0, 0] else [bc]
-            got_units = [[REQ_CODE[q] for q in u] for u in st["received"]]
-            if dc.HS[st["hs"]] != mo[1][0] or [dc.canon_emitted(e) for e in st["emitted"]] != mo[2:] \
-                    or any(u != want for u in got_units):
+            bad = False
+            for key, u in st["received"]:
+                want = ([[1, 0]] if key is not None and bc[2] == key + 1 else []) + ([] if bc[:2] == [0, 0] else [bc[:2]])
+                if [REQ_CODE[q] for q in u] != want:
+                    bad = True
+            if dc.HS[st["hs"]] != mo[1][0] or [dc.canon_emitted(e) for e in st["emitted"]] != mo[2:] or bad:
                 chk.violation("broken-obligation", "corr:dispatcher-run",
                               dict(input=c, step=k, impl_step=st, model_step=mo, model_broadcast=bc,
                                    note="the real run loop and the model disagree (emitted events, handshake or "
